@@ -156,6 +156,16 @@ func genC02Proto(t *rapid.T) ProtoCase {
 			cc.Frames = append(cc.Frames, EncodeCall(meth, nil, false, false, false))
 			continue
 		}
+		if rapid.IntRange(0, 5).Draw(t, "unencodable") == 0 && len(sp.Script) > 0 && sp.Script[0].Op == "reply" {
+			// "for any parameter values the caller supplies": a value without JSON encoding (pre-encoded bytes that are not one
+			// JSON value, NaN, a failing Marshaler, ...) is refused - what reaches the wire is still only whole, valid frames
+			un := Op{Op: "reply", Go: rapid.SampledFrom(UnencodableKinds).Draw(t, "unkind")}
+			if rapid.Bool().Draw(t, "unerr") {
+				un = Op{Op: "error", Name: "x.y.E", Go: un.Go}
+			}
+			at := rapid.IntRange(0, len(sp.Script)-1).Draw(t, "unat")
+			sp.Script = append(sp.Script[:at:at], append([]Op{un}, sp.Script[at:]...)...)
+		}
 		b, _ := json.Marshal(sp)
 		cc.Frames = append(cc.Frames, EncodeCall("x.y.M", b, more, false, false))
 	}
@@ -320,7 +330,7 @@ func concurrentBigCase(cf concCfg, refused bool, origin string) ProtoCase {
 			sp := ScriptParams{Conn: conn, ID: call, Script: []Op{{Op: "reply", P: json.RawMessage(sb.String())}}}
 			if call == 0 && refused {
 				// a reply attempt whose parameters cannot be encoded (refused, nothing written) precedes the real one
-				sp.Script = append([]Op{{Op: "reply", Go: "nan"}}, sp.Script...)
+				sp.Script = append([]Op{{Op: "reply", Go: UnencodableKinds[conn%len(UnencodableKinds)]}}, sp.Script...)
 			}
 			b, _ := json.Marshal(sp)
 			cc.Frames = append(cc.Frames, EncodeCall("x.y.Big", b, false, false, false))
